@@ -50,6 +50,7 @@ func loadWorld(repo string, overlay map[string][]byte, withDeps bool) (*World, e
 		return nil, fmt.Errorf("no packages loaded from %s", repo)
 	}
 	w := &World{repo: repo, pkgs: pkgs, all: map[string]*packages.Package{}, overlay: overlay}
+	curWorld = w
 	tp := map[string]*types.Package{}
 	packages.Visit(pkgs, nil, func(p *packages.Package) {
 		w.all[p.PkgPath] = p
@@ -180,7 +181,7 @@ func (w *World) globalInits() map[string]*Term {
 			}
 		}
 	}
-	e := &Engine{prog: w.prog, fset: w.fset, modPrefix: modPath, maxDepth: 0, loopBound: 1, maxPaths: 2000, funcByName: w.funcs, opaque: map[string]bool{}, hof: map[string]int{}, hofMethod: map[string]string{}}
+	e := &Engine{prog: w.prog, fset: w.fset, modPrefix: modPath, maxDepth: 3, loopBound: 1, maxPaths: 2000, funcByName: w.funcs, opaque: map[string]bool{}, hof: map[string]int{}, hofMethod: map[string]string{}}
 	for _, fn := range w.modFns {
 		if !(fn.Name() == "init" && fn.Synthetic != "" && fn.Parent() == nil) {
 			continue
@@ -256,7 +257,7 @@ func (w *World) engine(depth, loops int) *Engine {
 			depth = 8
 		}
 	}
-	return &Engine{uniqueImpl: w.uniqueImpl, globalInit: w.globalInits(), prog: w.prog, fset: w.fset, modPrefix: modPath, maxDepth: depth, loopBound: loops, maxPaths: 20000, funcByName: w.funcs, opaque: map[string]bool{}, hof: map[string]int{}, hofMethod: map[string]string{}}
+	return &Engine{ifaceFlow: w.ifaceFlow, fieldFunc: w.fieldFuncDefault, variadicUnused: w.variadicUnused, fieldConst: w.fieldConstDefault, uniqueImpl: w.uniqueImpl, globalInit: w.globalInits(), prog: w.prog, fset: w.fset, modPrefix: modPath, maxDepth: depth, loopBound: loops, maxPaths: 20000, funcByName: w.funcs, opaque: map[string]bool{}, hof: map[string]int{}, hofMethod: map[string]string{}}
 }
 
 func (w *World) pos(p token.Pos) string {
@@ -329,6 +330,9 @@ func (w *World) fileOf(p *packages.Package, pos token.Pos) *ast.File {
 	}
 	return nil
 }
+
+// curWorld: the program under analysis (one per process), for helpers that resolve names without a World parameter
+var curWorld *World
 
 var uniqueImplCache = map[*World]map[*types.Func]*ssa.Function{}
 
